@@ -29,3 +29,9 @@ C13_FIELDS = {
     "LeadingSpaceIndexTracker.__since_last_non_end_token": "emptied by the first non-end token, and every file starts with one",
     "ContainerTokenManager.list_adjust_map": "entries are removed when the list they belong to closes",
 }
+
+# C17 R17c: classes whose configuration entry raises on purpose
+C17_RAISE_EXCEPTIONS = {
+    "PluginOne": "debug rule MD999 shipped for the test-suite: raises when its 'test_value' item is set, to exercise the plugin error path; disabled by default",
+    "DebugExtension": "test hook: raises on demand so that the test-suite can exercise main's error paths; never enabled by a user configuration",
+}
